@@ -1151,6 +1151,16 @@ fn case_stats(cx: &mut Cx, cs: u64, enum_pattern: Option<Vec<bool>>) {
             self.0.stats()
         }
     }
+    let mark = interpose::mark();
+    // a third of the wrapped sinks have been used directly before they are put behind the queue: the figures read through
+    // the wrapper are the sink's figures, from the sink's first datagram on
+    if through_queue && enum_pattern.is_none() && r.chance(1, 3) {
+        for k in 0..r.range(1, 6) {
+            let _ = base.emit(&format!("before.the.queue.n{}:1|c", k));
+        }
+        let _ = base.flush();
+        cx.rep.obs("sinks_used_directly_before_being_wrapped_in_a_queuing_sink", 1);
+    }
     let done = Arc::new(AtomicU64::new(0));
     // every way of building the wrapper must hand the wrapped sink's figures through
     let qvariant = r.below(6);
@@ -1168,7 +1178,6 @@ fn case_stats(cx: &mut Cx, cs: u64, enum_pattern: Option<Vec<bool>>) {
     } else {
         None
     };
-    let mark = interpose::mark();
     // faults: an enumerated pattern (single thread), or random per-call failures
     if let Some(p) = &enum_pattern {
         for ok in p {
